@@ -291,6 +291,10 @@ class CFG:
         return False
 
     # control dependence ----------------------------------------------------
+    def same_iteration_reaches(self, loop, a, b, skip_exc: bool = True) -> bool:
+        """Can control go from statement a to statement b without passing the header of `loop` (i.e. within the same iteration)?"""
+        return self.reachable_without(self.nid(a), self.nid(b), {self.nid(loop)}, skip_exc=skip_exc)
+
     @property
     def control_deps(self) -> Dict[object, Set[Tuple[object, object]]]:
         """node -> {(branch node, label)} direct control dependences."""
